@@ -93,6 +93,8 @@ Choices ==
          \cup {[Node(0, "loop") EXCEPT !.form = "count", !.cnt = c, !.lv = "a", !.start = -2, !.step = -2] : c \in 2..3}
          \* <for var="a" data="1, 2, .., c">: the items are 1..c
          \cup {[Node(0, "loop") EXCEPT !.form = "for", !.cnt = c, !.lv = "a", !.start = 1, !.step = 1] : c \in 1..3}
+         \* ... with idx-var="b": the 0-based position of the item
+         \cup {[Node(0, "loop") EXCEPT !.form = "for", !.cnt = c, !.lv = "a", !.start = 1, !.step = 1, !.rd = "b"] : c \in 2..3}
          \cup {[Node(0, "loop") EXCEPT !.form = "while", !.cond = Lt("b", c)] : c \in {0, 2, 3}}
          \cup {[Node(0, "loop") EXCEPT !.form = "until", !.cond = Ge("b", c)] : c \in {0, 2, 3}}
          \cup {[Node(0, "leaf") EXCEPT !.rd = r, !.ref = p] : r \in {"a", "b"}, p \in {0, -1}}
@@ -462,7 +464,8 @@ LoopTest ==
                    [] nd.form = "while" -> EvalE(nd.cond, scopes) # 0
                    [] OTHER -> TRUE
        IN IF go
-          THEN /\ scopes' = IF nd.lv # "-" THEN SetTop(scopes, nd.lv, f.lvv) ELSE scopes
+          THEN /\ scopes' = LET s1 == IF nd.lv # "-" THEN SetTop(scopes, nd.lv, f.lvv) ELSE scopes
+                              IN IF nd.form = "for" /\ nd.rd # "-" THEN SetTop(s1, nd.rd, f.it) ELSE s1
                /\ stack' = Append(SetTopFrame([f EXCEPT !.ph = "wait"]), NewPe(nd.ch))
           ELSE /\ scopes' = scopes
                /\ stack' = SetTopFrame([f EXCEPT !.ph = "exit"])
